@@ -638,13 +638,25 @@ def run_case(ctx, n, files, main_rel, req, do_apply, reqs, pending, verbose=Fals
                          observed=diff_snap(snap0, snap1), how=HOW)
             return
         # --- inspection ------------------------------------------------------------------
-        changed = ref.get_changed_files()
-        renames = ref.get_renames()
-        whole_diff = ref.get_diff()
-        info = []
-        for path, cf in changed.items():
-            info.append({'path': path, 'cf': cf, 'new': cf.get_new_code(), 'diff': cf.get_diff(),
-                         'old': cf._module_node.get_code()})
+        try:
+            changed = ref.get_changed_files()
+            renames = ref.get_renames()
+            whole_diff = ref.get_diff()
+            info = []
+            for path, cf in changed.items():
+                info.append({'path': path, 'cf': cf, 'new': cf.get_new_code(), 'diff': cf.get_diff(),
+                             'old': cf._module_node.get_code()})
+        except Exception as e:
+            cls, site = common.exc_site(e)
+            if sandbox_quirk(e):
+                ctx.count('raised-sandbox', None, nontrivial=False, bucket='%s@%s' % (cls, site))
+                return
+            ctx.fail('oracle-patch', 'inspecting the refactoring result (get_changed_files / get_renames / '
+                     'get_diff / get_new_code) raised %s: there is no diff' % cls, dict(case, exception=cls),
+                     observed={'class': cls, 'site': site, 'message': mask(str(e)[:200])}, how=HOW)
+            if verbose:
+                traceback.print_exc()
+            return
         snap1 = snapshot(root)
         ctx.count('oracle-inspect', (files[case['file']], json.dumps(req, sort_keys=True)), nontrivial=bool(info),
                   bucket=req['kind'])
@@ -801,6 +813,17 @@ def run_case(ctx, n, files, main_rel, req, do_apply, reqs, pending, verbose=Fals
             if not (a in snap0 or any(k.startswith(a + '/') for k in snap0)):
                 ctx.fail('oracle-names', 'get_renames() names a source that does not exist', case,
                          observed=[a, b], how=HOW)
+        # a rename whose target is taken (a file, or a directory with files): what the diff announces
+        # cannot all come true; the input class is named so that reports about it can be told apart
+        taken = [[a, b] for a, b in rel_renames
+                 if a != b and (b in snap0 or any(k.startswith(b + '/') for k in snap0))]
+        acase = dict(case, shape='rename-target-exists', taken=taken) if taken else case
+        news = [resolve(h_new, P) for _, h_new, _, _ in sections]
+        twice = sorted({mask(x) for x in news if news.count(x) > 1})
+        if twice:
+            ctx.fail('oracle-names', 'get_diff() announces different contents for one file name: two `+++` headers '
+                     'name the same file', acase, expected='one section per name',
+                     observed={'+++': twice, 'diff': mask(whole_diff)}, how=HOW)
         # which part of the domain this case is in: per file of the world
         classes = set()
         changed_rels = {it.get('rel') for it in info if it.get('rel') in snap0 and it['old'] != it['new']}
@@ -830,7 +853,7 @@ def run_case(ctx, n, files, main_rel, req, do_apply, reqs, pending, verbose=Fals
             aerr = e
         except Exception as e:
             cls, site = common.exc_site(e)
-            ctx.fail('oracle-apply', 'apply() raised %s' % cls, case,
+            ctx.fail('oracle-apply', 'apply() raised %s' % cls, acase,
                      observed={'class': cls, 'site': site, 'message': mask(str(e)[:200]),
                                'disk': diff_snap(snap0, snapshot(root))}, how=HOW)
             return
@@ -844,14 +867,15 @@ def run_case(ctx, n, files, main_rel, req, do_apply, reqs, pending, verbose=Fals
                     expected[b + k[len(a):]] = expected.pop(k)
         snap2 = snapshot(root)
         ctx.count('oracle-apply', (json.dumps(files, sort_keys=True), json.dumps(req, sort_keys=True)),
-                  nontrivial=snap2 != snap0, bucket=req['kind'] + ('/renames' if renames else ''),
+                  nontrivial=snap2 != snap0,
+                  bucket=req['kind'] + ('/renames' if renames else '') + ('/target-exists' if taken else ''),
                   sample={'request': req, 'renames': rel_renames, 'changed': [it.get('rel') for it in info]})
         if aerr is not None:
             ctx.fail('oracle-apply', 'apply() refused on a project with paths', case,
                      observed={'message': mask(str(aerr))}, how=HOW)
         elif snap2 != expected:
             ctx.fail('oracle-apply', 'after apply() the files do not hold exactly the announced contents '
-                     'and names', case, expected=diff_snap(snap0, expected), observed=diff_snap(snap0, snap2),
+                     'and names', acase, expected=diff_snap(snap0, expected), observed=diff_snap(snap0, snap2),
                      how=HOW)
         # the diff as a client reads it: every `+++ b` is now a file holding the announced text, every
         # `--- a` that differs from its `+++ b` is gone
@@ -868,7 +892,7 @@ def run_case(ctx, n, files, main_rel, req, do_apply, reqs, pending, verbose=Fals
                 if problems:
                     ctx.fail('oracle-apply', 'after apply() the names announced by the `---`/`+++` headers of '
                              'get_diff() are not the files that hold the announced contents',
-                             dict(case, changed_file=rel),
+                             dict(acase, changed_file=rel),
                              expected=mask({'+++': b, 'holds': new_code, 'gone': a if a != b else None}),
                              observed={'problems': problems, 'files_now': sorted(snap2)}, how=HOW)
         query = sorted(set(snap0) | set(snap2) | set(expected))
@@ -919,6 +943,11 @@ def fixed_cases():
     # a package whose name is a string prefix of a sibling module that is changed too
     out.append(({'pkg/__init__.py': 'top = 1\n', 'pkgextra.py': 'import pkg\nz = pkg.top\n', 'main.py': 'import pkg\nimport pkgextra\n'},
                 'main.py', {'kind': 'rename', 'file': 'main.py', 'line': 1, 'column': 7, 'new_name': 'pk'}, True, None))
+    # a module / a package renamed onto an existing one (known finding C07-rename-target-exists)
+    out.append(({'mod.py': 'import mod\nv = 1\n', 'other.py': 'import mod\nk = mod.v\n'}, 'other.py',
+                {'kind': 'rename', 'file': 'other.py', 'line': 1, 'column': 8, 'new_name': 'other'}, True, None))
+    out.append(({'pkg/__init__.py': 'v = 1\n', 'pk/__init__.py': 'w = 2\n', 'main.py': 'import pkg\nimport pk\nk = pkg.v\n'},
+                'main.py', {'kind': 'rename', 'file': 'main.py', 'line': 1, 'column': 8, 'new_name': 'pk'}, True, None))
     return out
 
 
